@@ -136,9 +136,11 @@ Section Deliver.
   Proof. unfold l_update_device_state. destruct (ds_row st); reflexivity. Qed.
   Lemma encoder_data_inbox st dev p rx c now : ds_inbox (fst (encoder_data E st dev p rx c now)) = ds_inbox st.
   Proof.
-    unfold encoder_data. destruct (encode_message _ _ _ _); try reflexivity.
-    pose proof (uds_inbox (l_set_sent_time st c now (d_fup dev)) (set_counters dev (d_fup dev) ((d_fdn dev + 1) mod 65536) (d_keywarn dev))) as H.
-    destruct (l_update_device_state _ _) as [st2 [e|]]; cbn [fst] in *; exact H.
+    unfold encoder_data. destruct (encode _); try reflexivity.
+    destruct (l_next_fdn st) as [st1 [cn|]] eqn:U; cbn [fst].
+    - apply next_row in U. destruct U as (r0 & _ & _ & _ & U3 & _).
+      destruct (encode_message _ _ _ _); cbn [fst]; unfold l_set_sent_time, upd_outbox, with_outbox; cbn [ds_inbox]; exact U3.
+    - apply next_none in U. destruct U as [-> _]. reflexivity.
   Qed.
   Lemma encoder_join_inbox st dev j rx : ds_inbox (fst (encoder_join E D st dev j rx)) = ds_inbox st.
   Proof.
@@ -165,14 +167,16 @@ Section Deliver.
   Proof.
     intros Hr Hs Hts Happ. unfold l_uplink. rewrite Hr. unfold process_message. rewrite stale_load, Hs.
     destruct (pm_counter st (load st r) f n) as [[st1 dev1]|] eqn:Ec.
-    2:{ unfold pm_counter in Ec. cbn [load d_fup] in Ec. destruct (d_fup r <=? fcnt f); [|discriminate].
-        unfold l_update_device_state in Ec. rewrite Hr in Ec. discriminate. }
-    destruct (pm_counter_spec st (load st r) f n st1 dev1 r Hr eq_refl Ec)
+    2:{ unfold pm_counter in Ec. cbn [load d_fup] in Ec. destruct (d_fup r <=? fcnt f) eqn:Ecmp; [|discriminate].
+        unfold l_advance_fup in Ec. rewrite Hr, Ecmp in Ec. discriminate. }
+    destruct (pm_counter_spec st (load st r) f n st1 dev1 r Hr eq_refl eq_refl eq_refl Ec)
       as (r1 & R1 & S1 & Fd1 & Eu1 & Kn1 & Ka1 & Ad1 & I1 & O1 & B1 & N1 & Hc).
     cbn [load d_eui d_nwkskey d_appskey d_addr d_appeui] in *.
     assert (Hae : d_appeui dev1 = d_appeui r).
     { unfold pm_counter in Ec. cbn [load d_fup d_fdn d_keywarn] in Ec. destruct (d_fup r <=? fcnt f).
-      - destruct (l_update_device_state _ _) as [x [e|]]; [discriminate|]. injection Ec as _ <-. reflexivity.
+      - destruct (l_advance_fup _ _ _ _) as [x [[]|]]; cbn [load d_relaxed] in Ec; try discriminate.
+        + destruct (d_relaxed r); [|discriminate]. injection Ec as _ <-. reflexivity.
+        + injection Ec as _ <-. reflexivity.
       - injection Ec as _ <-. reflexivity. }
     rewrite Kn1, Ka1.
     unfold l_create_upstream. cbn [mk_umsg u_ts]. rewrite I1.
